@@ -111,20 +111,26 @@ PROPS["C08"] = {
 
 PROPS["C10"] = {
     "kani": ["c10_layout", "c10_flex", "c10_container"],
-    "verus": ["surface"],
-    "technique": "Kani/CBMC full-domain harnesses on constraint clamp and alignment arithmetic; Verus contract on Layout::apply_to over the C07 window model; the View-tree induction is not mechanised",
+    "verus": ["surface", "layouttree"],
+    "technique": "Kani/CBMC full-domain harnesses on constraint clamp and alignment arithmetic; Verus contracts on Layout::apply_to over the C07 window model and on the layout-tree arena (Tree/TreeMut default methods, TreeIter, FindPath hit-testing) with an arena invariant; the View-tree induction is not mechanised",
     "level_text": "Proved (Kani, all usize): Size::clamp / BoxConstraint::clamp return a size inside every constraint with min <= max (identity inside), loosen/loose/tight as documented; "
                   "Align::align places the (clamped) child inside the space for Start/Center/End/Expand/Shrink and never panics. These are the functions every leaf and container view ends its layout with. "
                   "Proved (Verus, unit surface): Layout::apply_to - the call every view's render starts with - returns a view on the same data whose window is the sub-window rows pos.row..+height, cols pos.col..+width of the "
                   "surface it was given, clipped to it (window model of C07), so whatever a view paints through it stays inside the surface it received and inside the rectangle its layout records. "
                   "Proved (Kani, complete for the one-child Container): Container::layout against a probe child that returns ANY size within the constraint it is handed (the modular View contract) - for every container size, alignment pair, margins and constraint: no panic/overflow, own size within the constraint, child constraint has min <= max. "
                   "flex_layout with zero children and with one probe child terminates without panic within the constraint (Kani, bounded stand-ins; two or more children exhaust CBMC's memory). "
-                  "Flex distribution over several children and flex factors, the layout tree (TreeStore) as a data structure, FindPath, Frame/ScrollBar/Tag/Dynamic, Text/Image/glyph leaves and actual painting are NOT decided.",
-    "level_note": "Partial: clamp/align arithmetic, Layout::apply_to and the empty flex are under contract; flex with children, Container margins and the layout arena are not.",
+                  "Proved (Verus, unit layouttree, any arena size): under the arena invariant tree_wf (every sibling/child link points forward and inside the arena) TreeMut::push allocates the node at the end and links it as the LAST child "
+                  "keeping tree_wf and all existing values; pop detaches the FIRST child; child_mut/sibling/children/TreeIter::next walk exactly the child_first/sibling links; TreeMutView::new keeps tree_wf; "
+                  "FindPath::next (hit-testing) yields the current layout and descends into the first child, in insertion order, whose recorded rectangle contains the position, with the position re-expressed relative to it - "
+                  "no index out of range, no subtraction underflow, and the sibling walk terminates (decreases on the forward links). "
+                  "Flex distribution over several children and flex factors, Frame/ScrollBar/Tag/Dynamic, Text/Image/glyph leaves and actual painting are NOT decided.",
+    "level_note": "Partial: clamp/align arithmetic, Layout::apply_to, the layout arena and hit-testing, and the empty/one-child flex are under contract; flex with several children is not.",
     "assumptions": [
         "the modular View contract (children stay within the constraint they are given) is stated in DESIGN.md but not mechanised",
         "the modular View contract (a child returns a size within the constraint it is given) is what the probe child embodies; the induction over tree depth that it justifies is by argument, not mechanised",
-        "flex_layout with >= 2 children or flex factors, FindPath, Text/Image/glyph views, JSON-built trees: outside both verifiers here",
+        "flex_layout with >= 2 children or flex factors, Text/Image/glyph views, JSON-built trees: outside both verifiers here",
+        "layouttree: SmallVec<[TreeNode<T>; 5]> replaced by Vec (N18); Layout's type-erased payload opaque; FindPath::next requires pos + size of every recorded rectangle to fit usize (rect_ok) - layouts are clamped to their constraints; "
+        "Tree::find_path (a constructor) and push_default/value_mut/Deref impls are not extracted; struct fields widened to pub for specification (N20)",
     ],
 }
 
